@@ -172,6 +172,12 @@ func (s *Server) doMergeKeysCommand(conn redcon.Conn, cmdName string, cmd redcon
 	case "exists", "del":
 		cnt := int64(0)
 		for _, ret := range results {
+			// a partition that failed (no leader, proposal dropped, timeout) must
+			// not be reported to the client as "0 keys"
+			if err, ok := ret.(error); ok {
+				conn.WriteError(err.Error())
+				return
+			}
 			if v, ok := ret.(int64); ok {
 				cnt += v
 			}
